@@ -259,6 +259,7 @@ func genC10(c *Ctx) {
 			}
 		}
 		c.add("speccompact", hx(ns), joinHexList(txs))
+		c.add("speccompactix", hx(ns), joinHexList(txs))
 	}
 	// crafted shares: all 256 info bytes x reserved-byte values x namespaces
 	craftNs := [][]byte{share.TxNamespace.Bytes(), share.PayForBlobNamespace.Bytes(), share.PrimaryReservedPaddingNamespace.Bytes(),
